@@ -106,6 +106,11 @@ let () =
            let len = List.length before in
            let expect =
              match op with
+             | ["pop"] -> Some (Some (fst (s_pop before)))
+             | ["retain"; script] when not (String.contains script '2') ->
+               let keep = List.filter_map (fun c -> if c = '1' then Some true else if c = '0' then Some false else None)
+                   (List.init (String.length script) (String.get script)) in
+               Some (Some (s_retain before keep))
              | ["push"; cp] -> Some (Some (s_push before (n_of_string cp)))
              | ["insert"; i; cp] -> (match s_insert before (n_of_string i) (n_of_string cp) with SRet s -> Some (Some s) | SPanic -> Some None)
              | ["truncate"; n] -> (match s_truncate before (n_of_string n) with SRet s -> Some (Some s) | SPanic -> Some None)
